@@ -140,7 +140,7 @@ def Term.show (sf : UInt64 → String) : Term → String
   | .int i => toString i
   | .var id name => if id == 0 then name else name ++ "_" ++ toString id
   | .cplx args => TermList.showCplx sf args
-  | .cons t n c tv => "[" ++ Term.showNode sf (.cons t n c tv) true ++ "]"
+  | .cons t n _ _ => "[" ++ (if t.isNil then "" else Term.show sf t ++ Term.showNode sf n false) ++ "]"
   | .func name args => name ++ "(" ++ TermList.showArgs sf args true ++ ")"
 /-- the `while **t != Nil` loop of the list printer, one node per call. -/
 def Term.showNode (sf : UInt64 → String) : Term → Bool → String
